@@ -40,6 +40,7 @@ static Json execute(const Plan &plan, bool verbose)
     Ctx c;
     c.plan = &plan;
     c.verbose = verbose;
+    c.strict_enomem = plan.cfg.geti("strict_enomem", 0) != 0;
     arm_timer(g_hang_seconds);
     eng->run(c, plan);
     arm_timer(0);
@@ -67,7 +68,29 @@ static Json execute(const Plan &plan, bool verbose)
     st["alloc.yaml.total"] = g_sim.total_yaml;
     r["st"] = st;
     if (verbose) r["log"] = c.text;
+    { Json ma = Json::arr(); for (long v : c.main_allocs) ma.push(Json(v)); r["ma"] = ma; }
     return r;
+}
+
+// C12 replay: the plan with its faults must give the same event log as the plan without them
+static Json execute_twin(const Plan &plan, bool verbose)
+{
+    Plan clean = plan;
+    for (Op &op : clean.ops) op.f.clear();
+    Json base = execute(clean, false);
+    if (base.has("v")) return base;
+    Json res = execute(plan, verbose);
+    if (!res.has("v") && res.gets("h") != base.gets("h")) {
+	Json v = Json::obj();
+	long j = -1;
+	for (size_t k = 0; k < plan.ops.size(); ++k) if (!plan.ops[k].f.empty()) { j = (long)k; break; }
+	v["cls"] = "c12";
+	v["site"] = (j >= 0 ? plan.ops[(size_t)j].k : std::string("?")) + ":differs";
+	v["op"] = j;
+	v["msg"] = strf("with the injected fault (and the failed call re-issued) the history differs from the fault-free one: event log %s, fault-free %s", res.gets("h").c_str(), base.gets("h").c_str());
+	res["v"] = v;
+    }
+    return res;
 }
 
 int main(int argc, char **argv)
@@ -126,6 +149,80 @@ int main(int argc, char **argv)
 	fflush(stdout);
 	_exit(0);
     }
+    if (cmd == "enum" && argc >= 6) {
+	// C12: fail every allocation made by libvna code in a fault-armed call of the script, one at a time
+	std::string check = argv[2], tier = argv[3];
+	uint64_t seed = strtoull(argv[4], nullptr, 10);
+	long run = atol(argv[5]);
+	long from_j = argc >= 8 ? atol(argv[6]) : 0, from_k = argc >= 8 ? atol(argv[7]) : 1;
+	long cap = tier == "thorough" ? 20000 : 4000;
+	const char *en = engine_for_check(check);
+	const Engine *eng = en ? find_engine(en) : nullptr;
+	if (!eng) { fprintf(stderr, "no engine for %s\n", check.c_str()); return 3; }
+	g_cur_run = run;
+	Plan plan = eng->gen(check, tier, seed, run);
+	plan.check = check; plan.engine = eng->name; plan.seed = (long)seed; plan.run = run;
+	plan.cfg["strict_enomem"] = 1;
+	printf("{\"s\":%ld}\n", run);
+	Json base = execute(plan, false);
+	if (base.has("v")) {
+	    Json line = Json::obj();
+	    for (auto &p : base.o) if (p.first != "st" && p.first != "ma") line[p.first] = p.second;
+	    line["faultfree"] = true;
+	    printf("%s\n", line.str().c_str());
+	    fflush(stdout);
+	    _exit(99);
+	}
+	std::string hA = base.gets("h");
+	std::vector<long> ma;
+	if (const Json *a = base.find("ma")) for (auto &v : a->a) ma.push_back((long)v.i);
+	long K = 0;
+	for (long v : ma) K += v;
+	long stride = K > cap ? (K + cap - 1) / cap : 1;
+	long done = 0, nontrivial = 0, idx = 0;
+	std::map<std::string, long> agg;
+	for (size_t j = 0; j < ma.size(); ++j) for (long k = 1; k <= ma[j]; ++k, ++idx) {
+	    if ((long)j < from_j || ((long)j == from_j && k < from_k)) continue;
+	    if (idx % stride) continue;
+	    printf("{\"s\":%ld,\"j\":%zu,\"k\":%ld}\n", run, j, k);
+	    Plan p2 = plan;
+	    Fault f; f.t = "alloc.vna"; f.n = k;
+	    p2.ops[j].f.push_back(f);
+	    Json res = execute(p2, false);
+	    ++done;
+	    long failed_by = 0;
+	    if (const Json *st = res.find("st")) { for (auto &p : st->o) agg[p.first] += (long)p.second.i; failed_by = (long)st->geti("probe.failed_by_fault"); }
+	    if (failed_by) ++nontrivial;
+	    bool bad = res.has("v") || res.gets("h") != hA;
+	    if (bad) {
+		Json line = Json::obj();
+		line["r"] = run; line["j"] = (long)j; line["k"] = k; line["h"] = res.gets("h"); line["hA"] = hA;
+		line["fp"] = res.gets("fp"); line["n"] = (long)plan.ops.size();
+		if (res.has("v")) line["v"] = *res.find("v");
+		else {
+		    Json v = Json::obj();
+		    v["cls"] = "c12"; v["site"] = plan.ops[j].k + ":differs"; v["op"] = (long)j;
+		    v["msg"] = strf("failing allocation %ld of operation %zu (%s) and re-issuing the call does not give the fault-free history (event log %s, fault-free %s)", k, j, plan.ops[j].k.c_str(), res.gets("h").c_str(), hA.c_str());
+		    line["v"] = v;
+		}
+		printf("%s\n", line.str().c_str());
+		Json st = Json::obj();
+		for (auto &p : agg) st[p.first] = p.second;
+		Json o = Json::obj(); o["stats"] = st; o["enum_next_j"] = (long)j; o["enum_next_k"] = k + 1; o["enum_done"] = done; o["enum_nt"] = nontrivial; o["enum_K"] = K;
+		printf("%s\n", o.str().c_str());
+		fflush(stdout);
+		_exit(99);
+	    }
+	}
+	Json st = Json::obj();
+	for (auto &p : agg) st[p.first] = p.second;
+	Json o = Json::obj(); o["stats"] = st; o["done"] = true; o["enum_done"] = done; o["enum_nt"] = nontrivial; o["enum_K"] = K; o["enum_exhaustive"] = stride == 1;
+	o["r"] = run; o["fp"] = base.gets("fp"); o["ops"] = (long)plan.ops.size();
+	if (run % 5 == 0) o["sample"] = plan.to_json();
+	printf("%s\n", o.str().c_str());
+	fflush(stdout);
+	_exit(0);
+    }
     if (cmd == "gen" && argc >= 6) {
 	std::string check = argv[2], tier = argv[3];
 	uint64_t seed = strtoull(argv[4], nullptr, 10);
@@ -149,7 +246,7 @@ int main(int argc, char **argv)
 	bool verbose = argc >= 4 && !strcmp(argv[3], "-v");
 	g_cur_run = plan.run;
 	printf("{\"s\":%ld}\n", plan.run);
-	Json res = execute(plan, verbose);
+	Json res = plan.cfg.geti("c12_twin", 0) ? execute_twin(plan, verbose) : execute(plan, verbose);
 	if (verbose) {
 	    if (const Json *l = res.find("log")) fputs(l->s.c_str(), stderr);
 	    Json line = Json::obj();
